@@ -113,30 +113,36 @@ func runC06(c *Ctx) {
 			switch listOf(s) {
 			case f.mutF:
 				mutSends = append(mutSends, s)
-				if ok, cf := isClone(arg); ok {
-					cloneFn = cf
-					c.OK(tag+"mutating consumer receives a clone", p.Pos(s.Pos()), "argument is clone(payload)")
-					continue
-				}
-				if arg == ssa.Value(payload) {
-					origToMutable++
-					hdr, _ := innermostLoop(s.Block())
-					gEmpty, gMutable := false, false
-					for _, g := range guardsOf(s.Block()) {
-						if op, x, y, ok := cmpOf(g); ok && op == token.EQL {
-							if k, isC := constInt(y); isC && k == 0 && isLenOfField(x, f.T, f.roF) {
+				// the payload argument may be chosen on the way to the call (`x := payload; if shared { x = clone }`):
+				// every alternative is judged under the conditions that select it
+				hdr, _ := innermostLoop(s.Block())
+				origHere := false
+				for _, alt := range valueAlternativesA3(arg, s.Block()) {
+					if ok, cf := isClone(alt.v); ok {
+						cloneFn = cf
+						c.OK(tag+"mutating consumer receives a clone", p.Pos(s.Pos()), "argument is clone(payload)")
+						continue
+					}
+					if alt.v == ssa.Value(payload) {
+						if !origHere {
+							origToMutable++ // counted per call site, not per way of choosing the argument
+						}
+						origHere = true
+						gEmpty, gMutable := false, false
+						for _, g := range alt.guards {
+							if lenIsZeroA3(g, f.T, f.roF) {
 								gEmpty = true
 							}
+							v, br := boolOf(g)
+							if call, ok := v.(*ssa.Call); ok && calleeOf(call) != nil && calleeOf(call).Name() == "IsReadOnly" && !br && call.Call.Args[0] == ssa.Value(payload) {
+								gMutable = true
+							}
 						}
-						v, br := boolOf(g)
-						if call, ok := v.(*ssa.Call); ok && calleeOf(call) != nil && calleeOf(call).Name() == "IsReadOnly" && !br && call.Call.Args[0] == ssa.Value(payload) {
-							gMutable = true
-						}
+						c.Check(hdr == nil && gEmpty && gMutable, tag+"original payload reaches a mutating consumer only when nothing is shared", p.Pos(s.Pos()), "outside loops, under len(readonly)==0 && !IsReadOnly()", fmt.Sprintf("in loop=%v, guarded by len(readonly)==0=%v, guarded by !IsReadOnly()=%v: a mutating consumer can change data another consumer (or the caller) still reads", hdr != nil, gEmpty, gMutable))
+						continue
 					}
-					c.Check(hdr == nil && gEmpty && gMutable, tag+"original payload reaches a mutating consumer only when nothing is shared", p.Pos(s.Pos()), "outside loops, under len(readonly)==0 && !IsReadOnly()", fmt.Sprintf("in loop=%v, guarded by len(readonly)==0=%v, guarded by !IsReadOnly()=%v: a mutating consumer can change data another consumer (or the caller) still reads", hdr != nil, gEmpty, gMutable))
-					continue
+					c.Bad(tag+"mutating consumer receives clone or original", p.Pos(s.Pos()), "payload argument is neither clone(payload) nor the incoming payload")
 				}
-				c.Bad(tag+"mutating consumer receives clone or original", p.Pos(s.Pos()), "payload argument is neither clone(payload) nor the incoming payload")
 			case f.roF:
 				roSends = append(roSends, s)
 				c.Check(arg == ssa.Value(payload), tag+"read-only consumer receives the incoming payload", p.Pos(s.Pos()), "incoming payload", "a read-only consumer is sent something other than the incoming payload")
@@ -231,25 +237,9 @@ func runC06(c *Ctx) {
 			}
 			okExit := loopHasOnlyConditionExit(s.Block())
 			// the loop condition is a pure index-bound test: header If cond = idx < bound with bound from len(list) [-1]
-			okBound := false
-			var bound string
-			if iff, ok := hdr.Instrs[len(hdr.Instrs)-1].(*ssa.If); ok {
-				if bo, ok := iff.Cond.(*ssa.BinOp); ok && bo.Op == token.LSS {
-					if isLenOfField(bo.Y, f.T, listOf(s)) {
-						okBound, bound = true, "len"
-					} else if sub, ok := bo.Y.(*ssa.BinOp); ok && sub.Op == token.SUB && isLenOfField(sub.X, f.T, listOf(s)) {
-						if k, isC := constInt(sub.Y); isC && k == 1 {
-							okBound, bound = true, "len-1"
-						}
-					}
-					// range loops compare against a len taken from the loaded slice
-					if call, ok := bo.Y.(*ssa.Call); ok && builtinName(call) == "len" {
-						if isFieldAccess(call.Call.Args[0], f.T, listOf(s)) {
-							okBound, bound = true, "len"
-						}
-					}
-				}
-			}
+			// (index form `i < len(list)[-1]`, or a range over the list / over list[:len(list)-1])
+			bound := rangeLoopBoundA3(hdr, f.T, listOf(s))
+			okBound := bound != ""
 			c.Check(okExit && okBound, tag+"loop over "+listOf(s)+" consumers visits every index", p.Pos(s.Pos()), "exits only at its index bound ("+bound+")", fmt.Sprintf("only-condition exit=%v, pure index bound=%v: an earlier failure (or another condition) makes later consumers miss the payload", okExit, okBound))
 			if listOf(s) == f.mutF && bound == "len-1" {
 				// the remaining element: a non-loop send whose receiver index is len-1
@@ -313,8 +303,22 @@ func runC06(c *Ctx) {
 				}
 				return false
 			}
-			c.Check(capDep(ms[0].Block(), true), tag+"consumers declaring MutatesData go to the mutable list", p.Pos(ms[0].Pos()), "append under MutatesData==true", "a consumer is classified as mutable regardless of (or against) its declared capability")
-			c.Check(capDep(rs[0].Block(), false), tag+"consumers not declaring MutatesData go to the read-only list", p.Pos(rs[0].Pos()), "append under MutatesData==false", "a consumer is classified as read-only regardless of (or against) its declared capability")
+			// the decision is taken where an element is appended: in place (`x.list = append(x.list, c)`) or to a local
+			// accumulator that is stored into the field afterwards (`&T{list: local}`)
+			appendsUnder := func(stores []*ssa.Store, want bool) bool {
+				n := 0
+				for _, st := range stores {
+					for _, ap := range appendsFeedingA3(st.Val) {
+						n++
+						if !capDep(ap.Block(), want) {
+							return false
+						}
+					}
+				}
+				return n > 0
+			}
+			c.Check(appendsUnder(ms, true), tag+"consumers declaring MutatesData go to the mutable list", p.Pos(ms[0].Pos()), "append under MutatesData==true", "a consumer is classified as mutable regardless of (or against) its declared capability")
+			c.Check(appendsUnder(rs, false), tag+"consumers not declaring MutatesData go to the read-only list", p.Pos(rs[0].Pos()), "append under MutatesData==false", "a consumer is classified as read-only regardless of (or against) its declared capability")
 		}
 		// Capabilities(): MutatesData = len(mutable)>0 && len(readonly)==0
 		for _, fn := range p.AllSrcFuncs(fpk) {
@@ -453,85 +457,26 @@ func runC06Caps(c *Ctx) {
 			capArg := ci.Common().Args[1]
 			n++
 			site := fmt.Sprintf("%s in %s", calleeOf(ci).Name(), fnName(fn))
-			if call, ok := strip(capArg).(*ssa.Call); ok && staticCalleeFn(call) != nil {
-				// connector: aggregateCap(conn, nexts)
-				af := staticCalleeFn(call)
-				base, nexts := false, false
-				for _, r := range returnsOf(af) {
-					for v := range backSlice(resultsOf(r)[0]) {
-						if cc, ok := v.(*ssa.Call); ok && cc.Call.IsInvoke() && cc.Call.Method.Name() == "Capabilities" {
-							if _, isP := cc.Call.Value.(*ssa.Parameter); isP {
-								base = true
-							} else {
-								for w := range backSlice(cc.Call.Value) {
-									if pa, ok := w.(*ssa.Parameter); ok {
-										if _, isSl := pa.Type().Underlying().(*types.Slice); isSl {
-											nexts = true
-										}
-									}
-								}
-							}
-						}
-					}
-				}
+			// what the capability depends on, followed into a same-package helper that computes it (aggregateCap for the
+			// connectors; the pipeline's aggregate may equally be computed in place or by a helper)
+			src := capabilitySourcesA3(fn, capArg, ci.Common().Args[0])
+			isConnector := !src.fan && !src.procs && (src.own || src.elems)
+			if !src.fan && !src.procs && !src.own && !src.elems {
+				_, isCall := strip(capArg).(*ssa.Call)
+				isConnector = isCall
+			}
+			if isConnector {
+				base, nexts := src.own, src.elems
 				// loop over nexts has no early exit
 				c.Check(base && nexts, "connector capability aggregates itself and all next consumers: "+site, p.Pos(ci.Pos()), "depends on base.Capabilities() and every next.Capabilities()", fmt.Sprintf("depends on own capabilities=%v, on next consumers=%v", base, nexts))
 				continue
 			}
-			// graph capabilities node: value loaded from a local struct; collect stores to its MutatesData
-			fan, procs := false, false
-			visit := func(v ssa.Value) {
-				for x := range backSlice(v) {
-					cc, ok := x.(*ssa.Call)
-					if !ok || !cc.Call.IsInvoke() || cc.Call.Method.Name() != "Capabilities" {
-						continue
-					}
-					for w := range backSlice(cc.Call.Value) {
-						if fa, ok := w.(*ssa.FieldAddr); ok {
-							name := derefStruct(fa.X.Type()).Field(fa.Field).Name()
-							if name == "fanOutNode" {
-								fan = true
-							}
-							if name == "processors" {
-								procs = true
-							}
-						}
-					}
-				}
-			}
-			visit(capArg)
-			// the fan-out's own capability enters unconditionally: some store to MutatesData in this function takes the
-			// field straight out of a Capabilities() result of the fan-out node's consumer (no `&&`, no length test)
-			direct := false
-			for _, f := range withAnon(fn) {
-				allInstrs(f, func(in ssa.Instruction) {
-					st, ok := in.(*ssa.Store)
-					if !ok {
-						return
-					}
-					fa, ok := st.Addr.(*ssa.FieldAddr)
-					if !ok || derefStruct(fa.X.Type()) == nil || derefStruct(fa.X.Type()).Field(fa.Field).Name() != "MutatesData" {
-						return
-					}
-					var base ssa.Value
-					switch x := st.Val.(type) {
-					case *ssa.Field:
-						base = x.X
-					case *ssa.UnOp:
-						if fa2, ok := x.X.(*ssa.FieldAddr); ok {
-							base = fa2.X
-						}
-					}
-					if base == nil {
-						return
-					}
-					for w := range backSlice(base) {
-						if fa3, ok := w.(*ssa.FieldAddr); ok && derefStruct(fa3.X.Type()) != nil && derefStruct(fa3.X.Type()).Field(fa3.Field).Name() == "fanOutNode" {
-							direct = true
-						}
-					}
-				})
-			}
+			// graph capabilities node
+			fan, procs := src.fan, src.procs
+			// the fan-out's own capability enters unconditionally: some store to MutatesData in this function (or in the
+			// helper) takes the field straight out of a Capabilities() result of the fan-out node's consumer (no `&&`,
+			// no length test)
+			direct := src.direct
 			if strings.Contains(fnName(fn), "buildComponents") || fan {
 				c.Check(direct, "pipeline capability takes the fan-out node's capability as it is: "+site, p.Pos(ci.Pos()), "MutatesData = fanOutNode.consumer.Capabilities().MutatesData", "the exporter stage's share of the pipeline capability is not the fan-out consumer's own capability but something derived under extra conditions (e.g. only for a single exporter): a pipeline whose exporters all mutate advertises read-only although one of them still receives the original payload")
 			}
